@@ -283,6 +283,32 @@ def inner(n: int):
     r = schedule.reverse(d)
     r(grid.from_positions([0.0, 2.0], [1.0]), n=n)
 
+@tweezer
+def parkk(n: int):
+    p = spec.get_special_grid(grid_id="park")
+    action.set_loc(p)
+    action.turn_on(action.ALL, [0])
+    action.move(grid.shift(p, 0.5 * n, 1.0))
+    action.move(spec.get_static_trap(zone_id="traps")[0:2, 0:2])
+
+@move
+def special_carried(n: int):
+    d = schedule.device_fn(parkk, ilist.IList([0, 1]), ilist.IList([0, 1]))
+    d(n)
+    schedule.reverse(d)(n=n)
+
+@move(arch_spec=_C05.SPEC_SLOT)
+def special_recorded(n: int):
+    d = schedule.device_fn(parkk, ilist.IList([0, 1]), ilist.IList([0, 1]))
+    d(n)
+    schedule.reverse(d)(n=n)
+
+@move(arch_spec=_C05.SPEC_SLOT)
+def special_folded():
+    d = schedule.device_fn(parkk, ilist.IList([0, 1]), ilist.IList([0, 1]))
+    d(2)
+    schedule.reverse(d)(n=2)
+
 @move
 def plain_sub(n: int):
     inner(n)
@@ -331,7 +357,10 @@ def subcall_stream(ctx, spec):
     lookup: the plain interpreter must find the spec recorded on them"""
     global SPEC_SLOT
     SPEC_SLOT = spec
-    mod = T.load_source(SUBCALL_SRC, "c05s")
+    try:
+        mod = T.load_source(SUBCALL_SRC, "c05s")
+    except Exception:  # noqa: BLE001
+        return      # reported by closure_stream
     for n in (0, 2):
         a = EV.run_with_events(mod.plain_sub, spec, (n,))
         b = EV.run_with_events(mod.compiled_sub, spec, (n,), plain=True)
@@ -349,13 +378,29 @@ def closure_stream(ctx, spec):
     three routes give the same two paths"""
     global SPEC_SLOT
     SPEC_SLOT = spec
-    mod = T.load_source(SUBCALL_SRC, "c05c")
+    try:
+        mod = T.load_source(SUBCALL_SRC, "c05c")
+    except Exception as e:  # noqa: BLE001
+        ctx.fail({"source": SUBCALL_SRC[len(MOVE_HDR):]},
+                 f"kernels with device calls over closure kernels / kernels reading special grids do not compile with a spec: "
+                 f"{type(e).__name__}: {str(e)[:200]}")
+        return
     a = EV.run_with_events(mod.closure_carried, spec, (1.0, 2.0))
     b = EV.run_with_events(mod.closure_recorded, spec, (1.0, 2.0), plain=True)
     c = EV.run_with_events(mod.closure_folded, spec, (), plain=True)
     rs = {"spec-carrying interpreter": a, "plain interpreter, recorded spec": b, "folded at compile time": c}
     canon = {k: ("err" if r.error else EV.canon_events(r.events)) for k, r in rs.items()}
     ctx.count("closure_kernel_runs", 3)
+    a2 = EV.run_with_events(mod.special_carried, spec, (2,))
+    b2 = EV.run_with_events(mod.special_recorded, spec, (2,), plain=True)
+    c2 = EV.run_with_events(mod.special_folded, spec, (), plain=True)
+    canon2 = {k: ("err" if r.error else EV.canon_events(r.events)) for k, r in
+              {"spec-carrying interpreter": a2, "plain interpreter, recorded spec": b2, "folded at compile time": c2}.items()}
+    ctx.count("special_grid_kernel_runs", 3)
+    if len(set(canon2.values())) != 1 or "err" in canon2.values():
+        ctx.fail({"source": SUBCALL_SRC[len(MOVE_HDR):], "args": [2]},
+                 "a device function whose tweezer kernel reads a special grid and a static trap: the routes differ or raise: " +
+                 " | ".join(f"{k}: {v[:120]}" for k, v in canon2.items()))
     if len(set(canon.values())) != 1 or "err" in canon.values():
         ctx.fail({"source": SUBCALL_SRC[len(MOVE_HDR):], "args": [1.0, 2.0]},
                  "a device function over a closure kernel: the routes differ or raise: " +
